@@ -78,6 +78,8 @@ class SimFS:
         self.DIR_INO = 1
         self.inodes[1] = Inode(1, b'', 0o755)
         self.dirs = {cwd, posixpath.dirname(cwd), '/'}
+        self.symlinks = {}          # absolute path of the link -> target string (may dangle)
+        self.initial_symlinks = {}
 
     # -- set-up (pre-state is fully durable) ------------------------------------------
     def preload(self, path, data, mode):
@@ -91,6 +93,11 @@ class SimFS:
         self.initial_modes[ino.ino] = mode
         return ino
 
+    def preload_symlink(self, path, target):
+        path = self.abspath(path)
+        self.symlinks[path] = target
+        self.initial_symlinks[path] = target
+
     def abspath(self, p):
         if isinstance(p, bytes):
             p = p.decode()
@@ -98,9 +105,34 @@ class SimFS:
             p = posixpath.join(self.cwd, p)
         return posixpath.normpath(p)
 
+    def follow(self, path):
+        """Resolve symbolic links in the final component (ELOOP after 8 hops)."""
+        path = self.abspath(path)
+        for _ in range(8):
+            t = self.symlinks.get(path)
+            if t is None:
+                return path
+            path = posixpath.normpath(t if t.startswith('/') else posixpath.join(posixpath.dirname(path), t))
+        raise OSError(_errno.ELOOP, 'Too many levels of symbolic links', path)
+
+    def lexists(self, path):
+        p = self.abspath(path)
+        return p in self.dir or p in self.symlinks or p in self.dirs
+
+    def is_symlink(self, path):
+        return self.abspath(path) in self.symlinks
+
+    def binding(self, path):
+        """What the name itself is bound to: an inode number, ('symlink', target) or None."""
+        p = self.abspath(path)
+        if p in self.symlinks:
+            return ('symlink', self.symlinks[p])
+        return self.dir.get(p)
+
     # -- metadata operations -----------------------------------------------------------
     def lookup(self, path):
-        return self.dir.get(self.abspath(path))
+        """inode number the path resolves to (following symlinks), or None."""
+        return self.dir.get(self.follow(path))
 
     def create(self, path, mode):
         path = self.abspath(path)
@@ -118,7 +150,7 @@ class SimFS:
         src, dst = self.abspath(src), self.abspath(dst)
         if src not in self.dir:
             raise FileNotFoundError(_errno.ENOENT, 'No such file or directory', src)
-        if dst in self.dir:
+        if dst in self.dir or dst in self.symlinks:
             raise FileExistsError(_errno.EEXIST, 'File exists', dst)
         i = self.dir[src]
         self.dir[dst] = i
@@ -127,6 +159,10 @@ class SimFS:
 
     def unlink(self, path):
         path = self.abspath(path)
+        if path in self.symlinks:            # removes the link itself, never its target
+            del self.symlinks[path]
+            self.journal.append(('unlink', path))
+            return
         if path not in self.dir:
             raise FileNotFoundError(_errno.ENOENT, 'No such file or directory', path)
         i = self.dir.pop(path)
@@ -142,12 +178,13 @@ class SimFS:
             return                   # POSIX: same file, no-op
         if dst in self.dir:
             self.inodes[self.dir[dst]].nlink -= 1
+        self.symlinks.pop(dst, None)         # rename replaces a symlink itself, not its target
         del self.dir[src]
         self.dir[dst] = i
         self.journal.append(('rename', src, dst))
 
     def chmod(self, path, mode):
-        path = self.abspath(path)
+        path = self.follow(path)
         if path not in self.dir:
             raise FileNotFoundError(_errno.ENOENT, 'No such file or directory', path)
         i = self.dir[path]
@@ -164,6 +201,12 @@ class SimFS:
             self.next_fd += 1
             self.fds[fd] = OpenFile(self.DIR_INO, flags)
             return fd
+        if path in self.symlinks:
+            if flags & _os.O_CREAT and flags & _os.O_EXCL:
+                raise FileExistsError(_errno.EEXIST, 'File exists', path)
+            if flags & getattr(_os, 'O_NOFOLLOW', 0):
+                raise OSError(_errno.ELOOP, 'Too many levels of symbolic links', path)
+            path = self.follow(path)         # opens (or creates) the target
         i = self.dir.get(path)
         if i is not None:
             if flags & _os.O_CREAT and flags & _os.O_EXCL:
@@ -265,6 +308,7 @@ class SimFS:
         self.journal = []
         self.durable_meta = 0
         self.initial_dir = dict(self.dir)
+        self.initial_symlinks = dict(self.symlinks)
         self.full = False
 
     # -- observation -----------------------------------------------------------------------
@@ -283,6 +327,17 @@ class SimFS:
         return Snapshot(self)
 
 
+class _LinkDir(dict):
+    """name -> inode mapping whose get() follows the symlinks that exist in that image."""
+
+    def __init__(self, d, syms):
+        super().__init__(d)
+        self.syms = syms
+
+    def get(self, path, default=None):
+        return super().get(Snapshot._follow(path, self.syms), default)
+
+
 class Snapshot:
     """Frozen copy of the file system at a crash instant, with the two observations."""
 
@@ -293,11 +348,22 @@ class Snapshot:
         self.durable_meta = fs.durable_meta
         self.inodes = {i: (bytes(n.data), n.synced, list(n.pending)) for i, n in fs.inodes.items()}
         self.dirs = set(fs.dirs)
+        self.symlinks = dict(fs.symlinks)
+        self.initial_symlinks = dict(fs.initial_symlinks)
         self.cwd = fs.cwd
 
     # (P) process death: the kernel's view survives
+    @staticmethod
+    def _follow(path, syms):
+        for _ in range(8):
+            t = syms.get(path)
+            if t is None:
+                return path
+            path = posixpath.normpath(t if t.startswith('/') else posixpath.join(posixpath.dirname(path), t))
+        return path
+
     def process_view(self, path):
-        i = self.dir.get(path)
+        i = self.dir.get(self._follow(path, self.symlinks))
         return None if i is None else self.inodes[i][0]
 
     # (S) power loss
@@ -305,7 +371,10 @@ class Snapshot:
         return range(self.durable_meta, len(self.journal) + 1)
 
     def dir_after_prefix(self, j):
+        """Directory after the first j journal records became durable.  The returned mapping
+        resolves symlinks on lookup (``d.get(path)`` follows links that are still there)."""
         d = dict(self.initial_dir)
+        syms = dict(self.initial_symlinks)
         for rec in self.journal[:j]:
             op = rec[0]
             if op == 'create':
@@ -313,11 +382,15 @@ class Snapshot:
             elif op == 'link':
                 d[rec[1]] = rec[2]
             elif op == 'unlink':
-                d.pop(rec[1], None)
+                if rec[1] in syms:
+                    del syms[rec[1]]
+                else:
+                    d.pop(rec[1], None)
             elif op == 'rename':
                 if rec[1] in d:
+                    syms.pop(rec[2], None)
                     d[rec[2]] = d.pop(rec[1])
-        return d
+        return _LinkDir(d, syms)
 
     def data_choices(self, ino, rng):
         """Contents an inode may have after power loss: nothing un-synced, everything,
@@ -568,12 +641,23 @@ class SimPath:
         if self._sim.crashed is not None and not self._sim.dead:
             raise CrashNow()
         self._sim.event('lexists', self._sim.fs.abspath(p))
-        return self._sim.fs.lookup(p) is not None
+        return self._sim.fs.lexists(p)
 
-    exists = lexists
+    def exists(self, p):
+        if self._sim.crashed is not None and not self._sim.dead:
+            raise CrashNow()
+        self._sim.event('exists', self._sim.fs.abspath(p))
+        fs = self._sim.fs
+        return fs.lookup(p) is not None or fs.follow(p) in fs.dirs
 
     def isfile(self, p):
-        return self.lexists(p)
+        return self._sim.fs.lookup(p) is not None
+
+    def islink(self, p):
+        return self._sim.fs.is_symlink(p)
+
+    def realpath(self, p, **kw):
+        return self._sim.fs.follow(p)
 
     def isdir(self, p):
         return self._sim.fs.abspath(p) in self._sim.fs.dirs
@@ -609,13 +693,26 @@ class SimOS:
         if f is not None:
             _raise(f, path)
         i = sim.fs.lookup(path)
-        if i is None and sim.fs.abspath(path) in sim.fs.dirs:
+        if i is None and sim.fs.follow(path) in sim.fs.dirs:
             i = sim.fs.DIR_INO
         if i is None:
             raise FileNotFoundError(_errno.ENOENT, 'No such file or directory', path)
         return StatResult(sim.fs.inodes[i])
 
-    lstat = stat
+    def lstat(self, path, *a, **k):
+        sim = self._sim
+        if sim.fs.is_symlink(path):
+            sim.event('lstat', sim.fs.abspath(path))
+            r = StatResult(sim.fs.inodes[sim.fs.DIR_INO])
+            r.st_mode = _stat.S_IFLNK | 0o777
+            return r
+        return self.stat(path)
+
+    def readlink(self, path):
+        p = self._sim.fs.abspath(path)
+        if p not in self._sim.fs.symlinks:
+            raise OSError(_errno.EINVAL, 'Invalid argument', path)
+        return self._sim.fs.symlinks[p]
 
     def fstat(self, fd):
         sim = self._sim
@@ -628,9 +725,9 @@ class SimOS:
         if f is not None:
             _raise(f, path)
         p = sim.fs.abspath(path)
-        before = sim.fs.dir.get(p)
+        before = sim.fs.binding(p)
         fd = sim.fs.open(path, flags, mode)
-        sim.note_binding(p, before, sim.fs.dir.get(p))
+        sim.note_binding(p, before, sim.fs.binding(p))
         return fd
 
     def fdopen(self, fd, mode='r', buffering=-1, encoding=None, errors=None, newline=None):
@@ -737,11 +834,11 @@ class SimOS:
             _raise(f, src, None, dst)
         d = sim.fs.abspath(dst)
         s = sim.fs.abspath(src)
-        before_d, before_s = sim.fs.dir.get(d), sim.fs.dir.get(s)
+        before_d, before_s = sim.fs.binding(d), sim.fs.binding(s)
         self._publishing('rename', src, dst)
         sim.fs.rename(src, dst)
-        sim.note_binding(d, before_d, sim.fs.dir.get(d))
-        sim.note_binding(s, before_s, sim.fs.dir.get(s))
+        sim.note_binding(d, before_d, sim.fs.binding(d))
+        sim.note_binding(s, before_s, sim.fs.binding(s))
 
     replace = rename
 
@@ -751,12 +848,12 @@ class SimOS:
         if f is not None:
             _raise(f, src, None, dst)
         d = sim.fs.abspath(dst)
-        before = sim.fs.dir.get(d)
+        before = sim.fs.binding(d)
         self._publishing('link', src, dst)
         if before is not None:
             sim.publish.pop()
         sim.fs.link(src, dst)
-        sim.note_binding(d, before, sim.fs.dir.get(d))
+        sim.note_binding(d, before, sim.fs.binding(d))
 
     def unlink(self, path, *a, **k):
         sim = self._sim
@@ -764,7 +861,7 @@ class SimOS:
         if f is not None:
             _raise(f, path)
         p = sim.fs.abspath(path)
-        before = sim.fs.dir.get(p)
+        before = sim.fs.binding(p)
         sim.fs.unlink(path)
         sim.note_binding(p, before, None)
 
